@@ -8,6 +8,7 @@ import (
 	"io"
 	"sort"
 	"strings"
+	"verif/model"
 
 	"github.com/syndtr/goleveldb/leveldb/journal"
 	"github.com/syndtr/goleveldb/leveldb/storage"
@@ -27,6 +28,7 @@ type jrec struct {
 	seq   uint64
 	n     int
 	vals  []string
+	ops   []model.BatchOp // the record's entries in order (values canonical)
 	start int
 	end   int
 }
@@ -60,14 +62,17 @@ func parseJournal(data []byte, strict bool) ([]jrec, error) {
 			p = p[1:]
 			kl, n := binary.Uvarint(p)
 			p = p[n:]
+			key := string(p[:kl])
 			p = p[kl:]
 			if kt == 1 {
 				vl, n := binary.Uvarint(p)
 				p = p[n:]
 				rec.vals = append(rec.vals, canonVal(string(p[:vl])))
+				rec.ops = append(rec.ops, model.BatchOp{K: key, V: canonVal(string(p[:vl]))})
 				p = p[vl:]
 			} else {
 				rec.vals = append(rec.vals, "")
+				rec.ops = append(rec.ops, model.BatchOp{K: key, Del: true})
 			}
 			cnt++
 		}
@@ -146,6 +151,46 @@ func c10Extra(w *harness.World, cr *concRun) {
 			}
 		}
 	}
+	// "they become visible together": a snapshot (taken at one sequence number) shows the state
+	// after some whole number of journal records - never a record applied in part. Only when the
+	// journals hold everything (nothing flushed and removed, no transaction, no faults).
+	if !removed && !cr.Faulted && len(cr.TrVals) == 0 {
+		for _, o := range cr.Hist {
+			in := o.Input.(linInput)
+			out := o.Output.(linOutput)
+			if in.Kind != "view" || out.Err != "" || len(out.Vals) != len(in.Keys) {
+				continue
+			}
+			st := map[string]string{}
+			match := func() bool {
+				for i, k := range in.Keys {
+					v, ok := st[k]
+					if !ok {
+						v = notFound
+					}
+					if out.Vals[i] != v {
+						return false
+					}
+				}
+				return true
+			}
+			ok := match()
+			for i := 0; i < len(recs) && !ok; i++ {
+				for _, e := range recs[i].ops {
+					if e.Del {
+						delete(st, e.K)
+					} else {
+						st[e.K] = e.V
+					}
+				}
+				ok = match()
+			}
+			if !ok {
+				cr.Viol = append(cr.Viol, fmt.Sprintf("a snapshot of %v shows %v: not the state after any whole number of the %d journal records (a write group became visible in part)", in.Keys, out.Vals, len(recs)))
+				return
+			}
+		}
+	}
 	groups := map[int]int{}
 	for _, o := range cr.Hist {
 		in := o.Input.(linInput)
@@ -205,6 +250,9 @@ func c10Drivers() []concParams {
 		{Name: "3-writers", Cfg: "roomy/bytewise", Clients: [][]string{{"put:a"}, {"put:b"}, {"put:a"}}, QB: 3, TB: 4, Expect: "noerr", SQ: 1, ST: 1},
 		{Name: "3-writers-2ops", Cfg: "roomy/bytewise", Clients: [][]string{{"put:a", "put:b"}, {"put:b", "w:+a,+b"}, {"del:a"}}, QB: 2, TB: 3, Expect: "noerr"},
 		{Name: "overflow-handoff", Cfg: "wide/bytewise", Clients: [][]string{{"put:a"}, {"putL:b"}, {"put:a"}}, QB: 2, TB: 3, Expect: "noerr", SQ: 1, ST: 1},
+		// a snapshot taken while a group of several batches is being applied
+		{Name: "merged-batches-vs-snapshot", Cfg: "roomy/bytewise", Clients: [][]string{{"put:a"}, {"w:+b,+c"}, {"snapget:a,b,c"}}, QB: 2, TB: 3, Expect: "noerr"},
+		{Name: "merging-write-leader-vs-snapshot", Cfg: "roomy/bytewise", Clients: [][]string{{"w:+a,+b"}, {"put:c"}, {"snapget:a,b,c", "snapget:c,a"}}, QB: 2, TB: 3, Expect: "noerr"},
 		// one writer opts out of merging per call (WriteOptions.NoWriteMerge) among writers that merge
 		{Name: "per-write-no-merge", Cfg: "roomy/bytewise", Clients: [][]string{{"Nput:a", "put:b"}, {"put:b"}, {"put:a", "Nw:+a,-b"}}, QB: 2, TB: 3, Expect: "noerr"},
 		{Name: "no-merge", Cfg: "roomy/bytewise", NoMerge: true, Clients: [][]string{{"put:a"}, {"put:b"}, {"put:a"}}, QB: 3, TB: 4, Expect: "noerr", SQ: 1, ST: 1},
